@@ -1,6 +1,7 @@
 package main
 
 import (
+	"bytes"
 	"strconv"
 	"unicode/utf8"
 
@@ -27,6 +28,7 @@ func init() {
 		c03B(c, uint16(code), unhx(in[1]))
 	}
 	replayers["C03P"] = func(c *ctx, in []string) { c03P(c, unhx(in[0])) }
+	replayers["C03K"] = func(c *ctx, in []string) { c03K(c) }
 	replayers["C03O"] = func(c *ctx, in []string) { op, _ := strconv.Atoi(in[0]); c03O(c, byte(op)) }
 	replayers["C03S"] = func(c *ctx, in []string) { code, _ := strconv.Atoi(in[0]); c03S(c, uint16(code)) }
 	replayers["U8"] = func(c *ctx, in []string) { u8(c, unhx(in[0])) }
@@ -94,9 +96,55 @@ func c03B(c *ctx, code uint16, reason []byte) {
 }
 
 func c03P(c *ctx, p []byte) {
-	pc, pr := ws.ParseCloseFrameData(p)
-	pc2, pr2 := ws.ParseCloseFrameDataUnsafe(append([]byte(nil), p...))
+	var pc, pc2 ws.StatusCode
+	var pr, pr2 string
+	panicked := false
+	func() {
+		defer func() {
+			if recover() != nil {
+				panicked = true
+			}
+		}()
+		pc, pr = ws.ParseCloseFrameData(p)
+		pc2, pr2 = ws.ParseCloseFrameDataUnsafe(append([]byte(nil), p...))
+	}()
+	if panicked {
+		c.emit("C03P %s -> 0 - panic", hx(p))
+		return
+	}
 	c.emit("C03P %s -> %d %s %d", hx(p), pc, hx([]byte(pr)), b2i(pc == pc2 && pr == pr2))
+}
+
+// C03K: the package's precompiled close frames carry the code their name says (and parse back to it)
+func c03K(c *ctx) {
+	for _, k := range []struct {
+		name string
+		b    []byte
+		code int
+	}{
+		{"Close", ws.CompiledClose, 0},
+		{"NormalClosure", ws.CompiledCloseNormalClosure, 1000}, {"GoingAway", ws.CompiledCloseGoingAway, 1001},
+		{"ProtocolError", ws.CompiledCloseProtocolError, 1002}, {"UnsupportedData", ws.CompiledCloseUnsupportedData, 1003},
+		{"NoMeaningYet", ws.CompiledCloseNoMeaningYet, 1004}, {"InvalidFramePayloadData", ws.CompiledCloseInvalidFramePayloadData, 1007},
+		{"PolicyViolation", ws.CompiledClosePolicyViolation, 1008}, {"MessageTooBig", ws.CompiledCloseMessageTooBig, 1009},
+		{"MandatoryExt", ws.CompiledCloseMandatoryExt, 1010}, {"InternalServerError", ws.CompiledCloseInternalServerError, 1011},
+		{"TLSHandshake", ws.CompiledCloseTLSHandshake, 1015},
+	} {
+		f, err := ws.ReadFrame(bytes.NewReader(k.b))
+		if err != nil {
+			c.emit("C03K %s %d -> bad - - -", k.name, k.code)
+			continue
+		}
+		pc, pr := ws.ParseCloseFrameData(f.Payload)
+		c.emit("C03K %s %d -> %s %d %s %d", k.name, k.code, hdrStr(f.Header), pc, hx([]byte(pr)), len(k.b))
+	}
+	for _, k := range []struct {
+		name string
+		b    []byte
+		op   int
+	}{{"Ping", ws.CompiledPing, 9}, {"Pong", ws.CompiledPong, 10}} {
+		c.emit("C03K %s %d -> %s", k.name, k.op, hx(k.b))
+	}
 }
 
 func c03O(c *ctx, op byte) {
@@ -195,6 +243,15 @@ func runC03(c *ctx) {
 			c03C(c, code, d)
 		}
 	}
+	// reasons of 8..40 bytes, ASCII except ONE byte >= 0x80 at every position (word-at-a-time validators)
+	for n := 8; n <= 40; n += 4 {
+		for pos := 0; pos < n; pos++ {
+			r := bytes.Repeat([]byte("a"), n)
+			r[pos] = []byte{0x80, 0xff, 0xc3, 0xbf}[(n+pos)%4]
+			c03C(c, 1000, r)
+		}
+	}
+	c03K(c)
 	// bodies: reason lengths 0..130 incl. multibyte straddling the crop
 	for n := 0; n <= 130; n++ {
 		for _, code := range []uint16{0, 1000, 1002, 1005, 4999, 65535, 256, 255} {
